@@ -436,3 +436,31 @@ fn k_mca_7_verify_result() {
     vcover!();
     std::mem::forget(h);
 }
+
+//@ob id=K-MCA-8 kind=C props=C20 fn=validate_provisional
+//@ pre: a provisional memo verified at any revision with one cycle head (recorded at any iteration stamp); the head's function ingredient (oracle) reports it Final at any iteration stamp and any verified_at, or Poisoned
+//@ post: the memo is accepted as final <=> the head is Final, was finalised **in the same revision as the memo was verified** and in the same iteration the memo saw; only then verified_final is set - a provisional result left behind by an abandoned (cancelled) execution of an older revision is never promoted because its head was re-finalised later
+#[cfg_attr(kani, kani::proof)]
+#[cfg_attr(kani, kani::unwind(4))]
+#[cfg_attr(salsa_verif_replay, test)]
+fn k_mca_8_validate_provisional() {
+    let z = zalsa_with_fn_oracle();
+    let me = vk::key(3, 5);
+    let head = vk::key(0, 1);
+    let seen = crate::cycle::IterationStamp::initial(vk::any());
+    let mva = vk::any_revision();
+    let h = header(mva, Durability::LOW, Revision::start(), false, OriginAndExtra::derived(std::iter::empty(), extra_with_head(head, seen)));
+    let fin: bool = vk::any();
+    let it = crate::cycle::IterationStamp::initial(vk::any());
+    let hva = vk::any_revision();
+    // SAFETY: single-threaded harness
+    unsafe { HEAD_STATUS = (fin, it, hva.as_usize()) };
+    let ok = validate_provisional(&z, me, &h.revisions, mva, h.revisions.cycle_heads());
+    assert!(ok == (fin && hva == mva && it == seen));
+    assert!(h.may_be_provisional() == !ok);
+    vcover!(ok, "accepted case reachable");
+    vcover!(fin && hva > mva && it == seen, "head re-finalised in a newer revision");
+    vcover!();
+    std::mem::forget(h);
+    std::mem::forget(z);
+}
